@@ -15,7 +15,7 @@ import dlib  # noqa: E402
 
 logging.disable(logging.CRITICAL)
 
-from traits.api import (on_trait_change, Float, WeakRef, Undefined, Instance, UUID, DelegatesTo, PrototypedFrom, Any, Dict, HasTraits, Int, List, Property, ReadOnly, Set, Str, TraitError,  # noqa: E402
+from traits.api import (on_trait_change, Range, Float, WeakRef, Undefined, Instance, UUID, DelegatesTo, PrototypedFrom, Any, Dict, HasTraits, Int, List, Property, ReadOnly, Set, Str, TraitError,  # noqa: E402
                         cached_property, observe, push_exception_handler, pop_exception_handler)
 from traits.trait_list_object import TraitListObject  # noqa: E402
 from traits.trait_dict_object import TraitDictObject  # noqa: E402
@@ -56,6 +56,17 @@ def make_class(case):
     if case.get("graph"):
         # an "edited since loaded" flag and an edit counter, declared BEFORE the traits they watch, maintained by
         # post_init=True handlers: restoring / copying state must not run them
+        # order-dependent restore: the dependent traits (`choices`, `amount`) are declared AFTER what they depend on
+        # (`kind`, `lo`/`hi`) but sort BEFORE it alphabetically; state is restored / copied in declaration order
+        ns["kind"] = Str("none")
+        ns["choices"] = List(Str)
+
+        def _kind_changed(self):
+            self.choices = []              # switching the kind starts with no choices
+        ns["_kind_changed"] = _kind_changed
+        ns["lo"] = Float(0.0)
+        ns["hi"] = Float(10.0)
+        ns["amount"] = Range(low="lo", high="hi")
         ns["dirty"] = Int(0)
         ns["edits"] = Int(0)
         ns["early"] = PrototypedFrom("late_inst", prefix="v")   # declared BEFORE the Instance it delegates to
@@ -301,6 +312,12 @@ def graph_probes(pool, o, c):
                 and any(x is c.kids[0] for x in c.kidset) and any(x is o.kids[0] for x in o.kidset)])
     # 913: a list trait with minlen >= 1 keeps its (non-default) value
     out.append(["inst", 913, "deep", c.ml is o.ml, list(c.ml) == list(o.ml) == [5, 6]])
+    # 916: traits that depend on another trait of the same object (a handler of `kind` resets `choices`; the bounds of
+    # `amount` are `lo` / `hi`) come back with their values: state is restored in declaration order
+    out.append(["inst", 916, "deep", False,
+                (c.kind, list(c.choices), c.lo, c.hi, c.amount) == ("radio", ["yes", "no"], 0.0, 100.0, 50.0)
+                and (o.kind, list(o.choices), o.amount) == ("radio", ["yes", "no"], 50.0)
+                and outcome(lambda: setattr(c, "amount", 500.0)) == "TraitError"])
     # 914: values stored under names that are not declared individually (wildcard-matched, plain undeclared) are part of
     # the object's state
     out.append(["inst", 914, "deep", False,
@@ -362,7 +379,8 @@ def make_side_handlers(side, wi, wo):
 
 def run_case(case):
     K = make_class(case)
-    o = K(uid=uuid.UUID(int=77), text="hello", words=["a", "b"], late_inst=Child(v=8)) if case.get("graph") else K()
+    o = K(uid=uuid.UUID(int=77), text="hello", words=["a", "b"], late_inst=Child(v=8), kind="radio", hi=100.0) \
+        if case.get("graph") else K()
     pool = Pool(o)
     hist_out = []
     for h in case["ops"]:
@@ -378,6 +396,8 @@ def run_case(case):
     if case.get("graph"):
         o.inst = Child(v=3, tags=["x"])
         o.kids = [Child(v=1, tags=["a"]), Child(v=2)]
+        o.choices = ["yes", "no"]
+        o.amount = 50.0
         o.temp_lunch = 21.5                                    # matched by the wildcard trait temp_
         o.note = 7                                             # a plain undeclared attribute (non-strict HasTraits)
         if case["op"][0] != "pickle":
